@@ -20,6 +20,7 @@ import re
 from ..core import hx, unhx, unhxs, parallel_map
 
 DRIVERS = ["drv_linenum"]
+GENERATED = ["LineNum"]
 
 ANSI = re.compile(r"\x1b\[[0-9;?]*[A-Za-z]|\x1b\]8;[^\x1b\x07]*(?:\x1b\\|\x07)")
 USIZE_MAX = 2 ** 64 - 1
@@ -827,9 +828,15 @@ def check_binary_case(ctx, case):
             if not ml:
                 continue
             if sbs:
-                lpanel = col_slice(r, 0, width // 2)
-                rpanel = col_slice(r, width // 2)
-                mr = rre.match(rpanel)
+                # the right panel starts at column width/2; a truncated wide character can shift
+                # it by one column (panel geometry is C07's subject): try the neighbours too
+                mr = None
+                for off in (0, -1, 1):
+                    lpanel = col_slice(r, 0, width // 2 + off)
+                    rpanel = col_slice(r, width // 2 + off)
+                    mr = rre.match(rpanel)
+                    if mr:
+                        break
                 if not mr:
                     continue
                 lcont, rcont = lpanel[ml.end():], rpanel[mr.end():]
